@@ -21,7 +21,7 @@ pub fn explore(ex: &Ex) {
     let pairs = gen::header_pairs();
     let depth = ex.pick(2usize, 3, 4);
     map_tree(ex, "c08.maps", &pairs, depth, &|map, d, l| {
-        let all = d <= 1 || (d == 2 && ex.scale == Scale::Thorough);
+        let all = d <= 1 || (d == 2 && ex.scale != Scale::Small);
         for (_name, ty, bytes) in header_carriers(map, all) {
             ex.decode(l, "c08.maps", ty, Entry::Slice, &bytes);
         }
